@@ -8,7 +8,8 @@ use metrique_writer::sink::FlushWait;
 use metrique_writer::{AnyEntrySink, Entry};
 use std::collections::{BTreeMap, HashMap};
 use std::sync::atomic::{AtomicBool, Ordering};
-use std::sync::{Arc, Barrier, Mutex};
+use std::sync::{Arc, Mutex};
+use vcommon::sync::SpinGate as Barrier;
 use std::time::{Duration, Instant};
 use vcommon::recording::{Obs, Op, Val, record};
 use vcommon::serde_json::{Value, json};
